@@ -56,6 +56,8 @@ try:
             print("   ", l[:220])
 finally:
     sh("git -C /repo checkout -- .")
+    # rebuild the harness on the restored tree (a stale binary would carry the seeded change into later manual runs)
+    sh("cargo build --release --offline", cwd="/verif/harness")
     rc, o = sh("git -C /repo status --short")
     if o.strip():
         print("WARNING /repo not clean:", o)
